@@ -36,6 +36,8 @@ PROP = dict(
         "MapToG = ClearCofactor(isogeny(MapToCurve)) with the library's ClearCofactor, on-curve and [r]P = O by the reference are decided",
         "bls24-315/317 G2 are hand-written draft-06 SvdW code: x-coordinate selection is compared with the SvdW reference, validity and the "
         "hash/encode relations are decided; its sign rule (not the RFC's sgn0) is not asserted; u is packed as (e0,0,e1,0) as the code does",
+        "concurrent section: 2/8/32 goroutines released by a barrier hash their own inputs repeatedly and compare with sequentially precomputed reference "
+        "values; it explores only the interleavings the Go scheduler produces (a probabilistic detector for shared-scratch defects, not a proof)",
         "negative count / negative lenInBytes are outside the quantifier of C13 and are not generated (they panic in make)",
         "hash_to_field.New(dst) with len(dst) > 255 is not generated (Sum has no error result and documents the panic in its body)",
         "SSWU criterion 3 of RFC 6.6.2 (g(x)-Z irreducible) only concerns the output distribution; a configured Z failing it is reported in the notes, not asserted",
@@ -44,20 +46,22 @@ PROP = dict(
         dict(name="params", pkg="c13", run="^(TestC13_(Params|Anchor|Vectors|FieldL|WrapperInventory|RegressF8|RegressF72|ExceptionalProbe)|FuzzC13_.*)$", rapid=False, timeout=(900, 1800), weight=2),
         dict(name="xmdsweep", pkg="c13", run="^TestC13_XmdSweep$", rapid=False),
         dict(name="xmd", pkg="c13", run="^TestC13_Xmd$", checks=(6000, 100000), seeds=(2, 4)),
-        dict(name="fieldhash", pkg="c13", run="^TestC13_FieldHash$", shards=FIELDS, checks=(1500, 25000)),
+        dict(name="fieldhash", pkg="c13", run="^TestC13_(FieldHash|ConcurrentFieldHash)$", shards=FIELDS, checks=(1500, 25000)),
         dict(name="wrapper", pkg="c13", run="^TestC13_HashWrapper$", shards=WRAPPED, checks=(400, 6000)),
         # thorough tier only: time-boxed coverage-guided native fuzzing (oracle inside the target); the quick tier runs its seed corpus in "params"
         dict(name="fuzz-expandhash", pkg="c13", run="^TestC13_NativeFuzz$", rapid=False, tiers=("thorough",), timeout=(900, 900),
              env=dict(VERIF_C13_FUZZTIME="120s"), weight=5),
         # constructed near-exceptional inputs: the tested temporary has a single non-zero limb (every limb, stored and canonical reading)
         dict(name="nearexc", pkg="c13", run="^TestC13_NearExceptionalSweep$", rapid=False, shards=SUITES, timeout=(900, 1800), weight=2),
-    ] + _suite_jobs("map", "^TestC13_MapToCurve$", 500, 5000) + _suite_jobs("hash", "^TestC13_HashToGroup$", 150, 1500),
+    ] + _suite_jobs("map", "^TestC13_MapToCurve$", 500, 5000) + _suite_jobs("hash", "^TestC13_(HashToGroup|ConcurrentHashToCurve)$", 150, 1500),
     mandatory_all=["u:0", "u:exceptional_root", "u:-1", "len:0", "len:1..31", "len:not_multiple_of_32", "len:>8160", "dst_len:0", "dst_len:255",
                    "small_field_count01", "branch:x3", "branch:exc:x1",
+                   "first_chunk>=1024+continued", "streamed_through_reused_buffer", "concurrent_hash",
                    "sum_nil_kept_across_calls", "returned_scribbled", "prefix_with_spare_capacity", "second_instance", "helper_slice_kept",
                    "u:near_exceptional", "u:coefficient_single_limb", "near_exceptional:mont", "near_exceptional:canon", "near_exceptional:top_limb"]
                   + ["near_exceptional:limb%d" % j for j in range(12)]
-                  + ["near_exceptional:suite:" + s for s in SUITES],
+                  + ["near_exceptional:suite:" + s for s in SUITES]
+                  + ["concurrent_hash:" + x for x in FIELDS + SUITES],
 )
 
 PROP.update(
